@@ -134,9 +134,17 @@ func runConfig(r *driver.Run, c config, predName string, pf func(*model.G) bool)
 	// graph through the library's observers and keeps / overwrites what they return (the
 	// results of observers belong to the caller), and through a live view of it.
 	observe := t.Chance(1, 3)
+	predProblem := ""
 	pr := func(g *graph.DenseGraph) bool {
 		calls++
 		if observe {
+			if predProblem == "" {
+				// a predicate may use any observer (M, Degrees, ...): what it is handed must be a
+				// well-formed graph on the current number of vertices
+				if wf := gutil.DenseWellFormed(g, g.N()); wf != "" {
+					predProblem = fmt.Sprintf("call %d, graph %s: %s", calls, gutil.G6(gutil.ToModel(g)), wf)
+				}
+			}
 			deg := g.Degrees()
 			for i := range deg {
 				deg[i] = -1
@@ -255,6 +263,9 @@ func runConfig(r *driver.Run, c config, predName string, pf func(*model.G) bool)
 		}
 	}
 	r.Logf("... %d graphs in all, per shard %v, predicate called %d times", total, perShard, calls)
+	if predProblem != "" {
+		r.Fail("malformed-value", "graph handed to the predicate", "n=%d m=%d %s: the graph handed to the pruning predicate is not well formed (%s)", n, m, predName, predProblem)
+	}
 	if huge {
 		sort.Slice(codes, func(i, j int) bool { return codes[i] < codes[j] })
 		for i := 1; i < len(codes); i++ {
